@@ -121,12 +121,12 @@ def _analyze_no_blank_line(self, lToi):
         if isinstance(lTokens[1], parser.whitespace):
             iEnd = len(lTokens) - 2
         else:
-            iEnd = len(lTokens) - 3
+            iEnd = len(lTokens) - 1
 
         for iToken, oToken in enumerate(lTokens):
             if isinstance(oToken, parser.carriage_return):
-                if not isinstance(lTokens[iToken + 1], parser.carriage_return):
-                    iStart = len(lTokens) - iToken - 2
+                if not isinstance(lTokens[iToken + 1], parser.blank_line):
+                    iStart = len(lTokens) - iToken
                     break
 
         lTokens.reverse()
